@@ -39,6 +39,7 @@ structure Node where
   rebuilding : Bool := false      -- persisted flag
   registered : Bool := false      -- registered with the current controller
   att        : Att := .none
+  snaps      : List (Nat × List Nat) := []   -- ghost: the volume snapshots it holds (id, the writes in it)
   deriving DecidableEq, Repr
 
 structure Sys where
@@ -50,6 +51,8 @@ structure Sys where
   stream : List Nat := []         -- ghost: what the volume holds (what an RW replica reads back)
   acked  : List Nat := []         -- ghost: the writes acknowledged to the initiator
   next   : Nat := 0
+  nextSnap : Nat := 0             -- id of the next volume snapshot
+  taken  : List (Nat × List Nat) := []   -- ghost: every volume snapshot with the volume's content when it was taken
 
 inductive Out where
   | ok | leader (e : Nat) | failed | refused | envMismatch
@@ -136,13 +139,13 @@ def stepAdd (s : Sys) (i : Nat) : Sys × Out :=
     `sync.Task.AddReplica`) and the transfer starts to overwrite what it held -/
 def stepSetRb (s : Sys) (i : Nat) : Sys × Out :=
   if !s.up ∨ i ≥ s.n ∨ (s.node i).att ≠ .wo then (s, .refused) else
-  (s.setNode i { s.node i with rebuilding := true, log := [] }, .ok)
+  (s.setNode i { s.node i with rebuilding := true, log := [], snaps := [] }, .ok)
 
 /-- `VerifyRebuildReplica` after the sync: the rebuilt replica holds what its source holds (C07),
     takes its counter (C10) and becomes RW -/
 def stepPromote (s : Sys) (i src : Nat) : Sys × Out :=
   if !s.up ∨ i ≥ s.n ∨ src ≥ s.n ∨ (s.node i).att ≠ .wo ∨ (s.node src).att ≠ .rw then (s, .refused) else
-  (s.setNode i { s.node i with att := .rw, log := (s.node src).log, rev := (s.node src).rev }, .ok)
+  (s.setNode i { s.node i with att := .rw, log := (s.node src).log, rev := (s.node src).rev, snaps := (s.node src).snaps }, .ok)
 
 /-- the promoted replica clears its flag (`SetRebuilding(false)`) -/
 def stepRbDone (s : Sys) (i : Nat) : Sys × Out :=
@@ -153,6 +156,13 @@ def stepRbDone (s : Sys) (i : Nat) : Sys × Out :=
 def stepRemove (s : Sys) (i : Nat) : Sys × Out :=
   if !s.up ∨ i ≥ s.n ∨ (s.node i).att = .none then (s, .refused) else
   (s.setNode i { s.node i with att := .none }, .ok)
+
+/-- `Controller.Snapshot` (a user-created volume snapshot): refused unless all `rf` replicas are RW;
+    every replica freezes what it holds under the same id -/
+def stepSnap (s : Sys) : Sys × Out :=
+  if !s.up ∨ s.rwCount ≠ s.rf then (s, .refused) else
+  ({ s with node := fun i => if (s.node i).att = .rw then { s.node i with snaps := (s.node i).snaps ++ [(s.nextSnap, (s.node i).log)] } else s.node i,
+            nextSnap := s.nextSnap + 1, taken := s.taken ++ [(s.nextSnap, s.stream)] }, .ok)
 
 /-- everything stops: the controller is gone, the directories stay -/
 def stepStop (s : Sys) : Sys × Out :=
@@ -168,6 +178,7 @@ inductive Op where
   | promote (i src : Nat)
   | rbdone (i : Nat)
   | remove (i : Nat)
+  | snap
   | stop
   deriving DecidableEq, Repr
 
@@ -179,6 +190,7 @@ def Sys.step (s : Sys) : Op → Sys × Out
   | .promote i src => s.stepPromote i src
   | .rbdone i => s.stepRbDone i
   | .remove i => s.stepRemove i
+  | .snap => s.stepSnap
   | .stop => s.stepStop
 
 def Sys.run (s : Sys) : List Op → Sys
